@@ -212,7 +212,8 @@ int vnacal_new_set_frequency_vector(vnacal_new_t *vnp,
 	    return -1;
 	}
     }
-    if (_vnacal_new_check_all_frequency_ranges(__func__, vnp,
+    if (vnp->vn_frequencies > 0 &&
+	    _vnacal_new_check_all_frequency_ranges(__func__, vnp,
 		frequency_vector[0],
 		frequency_vector[vnp->vn_frequencies - 1]) == -1) {
 	return -1;
